@@ -511,9 +511,9 @@ class Plucker(SMUserList):
         """
         if base.isvector(x, 3):
             x = base.getvector(x)
-            return np.linalg.norm( np.cross(x - self.pp, self.w) ) < tol
+            return np.linalg.norm( np.cross(x - self.pp, self.uw) ) < tol * max(1, np.linalg.norm(x), self.ppd)
         elif base.ismatrix(x, (3,None)):
-            return [np.linalg.norm(np.cross(_ - self.pp, self.w)) < tol for _ in x.T]
+            return [np.linalg.norm(np.cross(_ - self.pp, self.uw)) < tol * max(1, np.linalg.norm(_), self.ppd) for _ in x.T]
         else:
             raise ValueError('bad argument')
 
